@@ -31,11 +31,13 @@ const int kChkFail = 8;       // sol:chk:fail: documented result 150 when the so
 
 const int kRound = 7;         // mip:round=1..7 on the MIP model with a non-integral answer: rounding options must not touch the code
 
-const int kTable = 12;   // the -! table: 2 command lines x 6 sets of driver-specific result registrations
+const int kTable = 16;   // the -! table: 2 command lines x 8 sets of driver-specific result registrations
 const int kChkAll = 1000;  // sol:chk:fail with a violating answer under every code 0..999
+const int kRepFailSites = 6; // every code x a solver query failing while the results are collected (IIS finder, rays, basis, sensitivity)
+const char* kRepFailWhere[kRepFailSites] = {"ComputeIIS", "GetIIS", "Ray", "DRay", "GetBasis", "GetSensRangesPresolved"};
 const int kSession = 60;   // one solver instance, several solve + report rounds through the AMPLS C API (standard / named .sol files)
 uint64_t enumerated(const std::string&) {
-  return (uint64_t)kCodes * kPatterns * kModes + kTable + (uint64_t)kAbortCodes * kAbortSites * kModes + kChkFail + (uint64_t)kCodes * kRound + kChkAll + kSession;
+  return (uint64_t)kCodes * kPatterns * kModes + kTable + (uint64_t)kAbortCodes * kAbortSites * kModes + kChkFail + (uint64_t)kCodes * kRound + kChkAll + kSession + (uint64_t)kCodes * kRepFailSites;
 }
 
 sim::Json generate(const std::string& tier, uint64_t seed, uint64_t index) {
@@ -43,7 +45,23 @@ sim::Json generate(const std::string& tier, uint64_t seed, uint64_t index) {
   uint64_t n = (uint64_t)kCodes * kPatterns * kModes;
   const uint64_t nab = (uint64_t)kAbortCodes * kAbortSites * kModes;
   const uint64_t old_total = n + kTable + nab + kChkFail + (uint64_t)kCodes * kRound;
-  if (index >= old_total + kChkAll + kSession) return sim::Json();   // finite space, enumerated completely
+  if (index >= old_total + kChkAll + kSession + (uint64_t)kCodes * kRepFailSites) return sim::Json();   // finite space, enumerated completely
+  if (index >= old_total + kChkAll + kSession) {
+    // the solver's own IIS / ray / basis / sensitivity routine fails (they do, e.g. "cannot compute IIS on a feasible model"):
+    // a lost suffix is a warning, the code the backend reported is still the code of the .sol
+    uint64_t k = index - (old_total + kChkAll + kSession);
+    int c = (int)(k % kCodes) - 200; int site = (int)(k / kCodes);
+    sim::Json sc = base_scenario((c & 1) ? tiny_mip_nl() : tiny_lp_nl(), true);
+    for (const char* o : {"alg:rays=3", "alg:iisfind=1", "alg:sens=1", "alg:basis=3", "mip:basis=1", "sol:chk:mode=0"}) sc.ref("argv").push(o);
+    sim::Json& s = sc.ref("script");
+    s.set("status", c); s.set("status_msg", "status-msg-for-code");
+    s.set("primal", "full"); s.set("dual", "full"); s.set("objvals", 1); s.set("solve_iters", 1);
+    sim::Json t = sim::Json::object();
+    t.set("where", kRepFailWhere[site]); t.set("kind", (c & 2) ? "runtime" : "mp");
+    s.set("throw", t);
+    sc.set("repfail", true); sc.set("code", c); sc.set("site", site); sc.set("mode", 0);
+    return sc;
+  }
   if (index >= old_total + kChkAll) {            // AMPLS-API sessions
     uint64_t k = index - (old_total + kChkAll);
     sim::Rng rng(12345, "C10session", k);
@@ -133,6 +151,9 @@ sim::Json generate(const std::string& tier, uint64_t seed, uint64_t index) {
     if (variant == 1 || variant == 2) { add(422, 422, "extra-limit-422"); add(491, 491, "extra-nosol-491"); add(202, 202, "extra-infeas-202"); add(77, 77, "extra-solved-77"); }
     if (variant == 3) { add(501, 501, "redescribed-501"); add(333, 333, "extra-unbounded-333"); }
     if (variant == 4 || variant == 5) { add(560, 569, "extra-range-560"); add(120, 129, "extra-range-120"); }
+    // a driver describing the standard codes it returns: the first code of each class; sub-ranges that begin where a class begins
+    if (variant == 6) { add(0, 0, "extra-first-0"); add(200, 200, "extra-first-200"); add(300, 300, "extra-first-300"); add(400, 400, "extra-first-400"); add(470, 470, "extra-first-470"); add(500, 500, "extra-first-500"); }
+    if (variant == 7) { add(400, 419, "extra-range-400"); add(470, 489, "extra-range-470"); add(500, 599, "extra-range-500"); add(100, 149, "extra-range-100"); add(100, 100, "extra-first-100"); }
     sc.ref("script").set("extra_results", xr);
     sc.ref("script").set("extra_replace", variant == 2 || variant == 3 || variant == 4);
     sc.set("variant", variant);
@@ -196,6 +217,25 @@ void judge(const sim::Json& sc, const RunRecord& rec, sim::RunResult& r) {
     if (rec.rounds.size() != sc["session"]["rounds"].size()) flag("SESSION_INCOMPLETE", "rounds", "only " + std::to_string(rec.rounds.size()) + " rounds ran; " + rec.escaped_what);
     r.stats.set("session_runs", 1); r.stats.set("session_rounds", (long)rec.rounds.size());
     r.trace_sig = sim::fnv1a(std::string("session") + std::to_string(rec.rounds.size()), r.trace_sig);
+  } else if (sc["repfail"].as_bool()) {
+    int c = (int)sc["code"].as_int();
+    std::string where = kRepFailWhere[sc["site"].as_int()];
+    std::string rk = range_key(c) + "/repfail/" + where;
+    auto it = rec.files_after.find("stub.sol");
+    if (it == rec.files_after.end()) flag("NO_SOL", rk, "no stub.sol written; stderr: " + rec.err.substr(0, 500));
+    else {
+      oracle::SolFile sf = oracle::parse_sol(it->second);
+      if (!sf.ok) flag("MALFORMED_SOL", rk, sf.error);
+      else {
+        if (sf.code != c) flag("CODE_CHANGED", rk, "backend reported " + std::to_string(c) + ", its " + where + "() failed while results were collected, .sol says " + std::to_string(sf.code) + ": " + sf.message_text().substr(0, 200));
+        if (sf.message_text().find("status-msg-for-code") == std::string::npos) flag("STATUS_MSG_LOST", rk, "solve message lacks the backend's status text: " + sf.message_text().substr(0, 200));
+      }
+    }
+    bool reached = false; for (auto& cl : rec.stub.calls) if (cl == where) reached = true;
+    r.stats.set("repfail_runs", 1);
+    if (reached) r.stats.set("repfail_reached." + where, 1);
+    long k = ((long)c * 16 + sc["site"].as_int()) * 4 + 3 + (reached ? 1000000 : 0);
+    r.trace_sig = sim::fnv1a(&k, sizeof k, r.trace_sig);
   } else if (sc["chkall"].as_bool()) {
     // sol:chk:fail + a violating answer: 150 wherever the code announces a solution candidate (the check is documented to run
     // on every candidate unless the solver says infeasible); 200-299 unchanged; the other classes either way
@@ -250,6 +290,15 @@ void judge(const sim::Json& sc, const RunRecord& rec, sim::RunResult& r) {
       std::string l = rec.out.substr(ls, p - ls);
       if (sscanf(l.c_str(), " %d-%d", &a, &b) != 2) { sscanf(l.c_str(), " %d", &a); b = a; }
       if (a != e[(size_t)0].as_int() || b != e[(size_t)1].as_int()) flag("TABLE_WRONG", "registered-moved", "registered result '" + d + "' is listed as " + l);
+      // ... and under the heading of its documented class: the documented range line printed last before it is the range it lies in
+      int ha = -1, hb = -1; size_t q = 0;
+      while (q < ls) {
+        size_t e2 = rec.out.find('\n', q); if (e2 == std::string::npos || e2 > ls) break;
+        std::string hl = rec.out.substr(q, e2 - q); q = e2 + 1;
+        int x, y;
+        if (sscanf(hl.c_str(), " %d-%d", &x, &y) == 2) for (auto& rg : kRanges) if (rg.lo == x && rg.hi == y) { ha = x; hb = y; }
+      }
+      if (a >= 0 && !(ha <= a && b <= hb)) flag("TABLE_WRONG", "registered-under-other-class", "registered result '" + d + "' (" + std::to_string(a) + "-" + std::to_string(b) + ") is listed under the heading " + (ha < 0 ? std::string("(none)") : std::to_string(ha) + "-" + std::to_string(hb)) + "\n" + rec.out.substr(0, 1500));
     }
     for (const char* d : {"fatal error 1", "AI iteration limit"}) if (rec.out.find(d) == std::string::npos) flag("TABLE_WRONG", "registered-missing", std::string("-! does not list the driver's result '") + d + "'");
     r.stats.set("table_runs", 1);
